@@ -113,14 +113,24 @@ fn one(wseed: u64) {
             return;
         }
     };
-    let image = p.serialize();
+    // The single-threaded reference results come from a *second* automaton built from the same
+    // input, so that the shared one is still untouched ("first use" is part of the history: a
+    // lazily initialised cache would otherwise be warmed up before the threads start).
+    let reference = match pma::build(&spec) {
+        Ok(q) => q,
+        Err(e) => violation("build-differs", wseed, format!("second build failed: {e}")),
+    };
+    let image = reference.serialize();
     let mut want: std::collections::HashMap<(Method, usize), Vec<Mt>> = Default::default();
     for th in &threads {
         for op in th {
             if let Op::Search { method, hay, .. } = op {
-                want.entry((*method, *hay)).or_insert_with(|| pma::search(&**p, *method, &hays[*hay]));
+                want.entry((*method, *hay)).or_insert_with(|| pma::search(&*reference, *method, &hays[*hay]));
             }
         }
+    }
+    if p.serialize() != image {
+        violation("build-differs", wseed, "two builds from the same input serialise differently".into());
     }
     let spec = Arc::new(spec);
     let want = Arc::new(want);
